@@ -14,22 +14,23 @@ LEVEL_TEXT = (
     "(R1) every program handed out by a representation entry point has passed through relabel_nodes (must-pass-"
     "through on return chains of the resolved call graph); (R2) the children enumeration used by relabel_nodes "
     "can reach list elements: no branch shadowed by a tautological hasattr test, no run-time use of a name "
-    "imported only under TYPE_CHECKING; (R3) every call of relabel_nodes passes is_list = isinstance(node, list);"
-    " (R4, R5) the fold itself is interpreted (finite model with symbolic numbers: helpers, closures and "
-    "comprehensions inlined) on an inner node with two children - of different and of the same type - whose own "
-    "folds return symbolic metadata (n_i, d_i, w_i, type index): gengy_nodes = 1 + n_1 + n_2, "
-    "gengy_distance_to_term = max(1, d_1 + 1, d_2 + 1), gengy_weighted_nodes = w_1 + w_2 + depth, the type index "
-    "holds the node itself and every node of the children's indexes in order, what is stored on the node is what "
-    "is returned to the parent, and the fold neither adopts nor extends a list owned by a child's metadata; "
-    "nothing outside relabel_nodes edits a cached index (may-mutate analysis). (R6) the abstract-expansion table "
-    "that expansion-depthing metadata adds holds the length of the shortest chain of abstract expansions (grammar"
-    " analysis interpreted end to end on the model grammars, sa/rules/grammodel.py); (R7) whole programs: "
-    "relabel_nodes_of_trees is interpreted recursively on every program depth-limited creation can produce on the"
-    " four creation model grammars (depth <= 3) and every node's count, distance, weighted size and type index "
-    "equal an independent traversal under the repository's own leaf convention (base values and productions "
-    "without fields are leaves of height 0 that are not counted; pinned by "
-    "tests/representations/tree_based/relabel_test.py). Decided for the default depth mode and non-list children;"
-    " list nodes are a known finding; how relabel_nodes uses the abstract-expansion table is not decided."
+    "imported only under TYPE_CHECKING; (R3) every call of relabel_nodes passes is_list = isinstance(node, list) "
+    "(directly or through a local holding that test); (R4, R5) the fold itself is interpreted (finite model with "
+    "symbolic numbers: helpers, closures and comprehensions inlined) on an inner node with two children - of "
+    "different and of the same type - whose own folds return symbolic metadata (n_i, d_i, w_i, type index): "
+    "gengy_nodes = 1 + n_1 + n_2, gengy_distance_to_term = max(1, d_1 + 1, d_2 + 1), gengy_weighted_nodes = w_1 +"
+    " w_2 + depth, the type index holds the node itself and every node of the children's indexes in order, what "
+    "is stored on the node is what is returned to the parent, and the fold neither adopts nor extends a list "
+    "owned by a child's metadata; nothing outside relabel_nodes edits a cached index (may-mutate analysis). (R6) "
+    "the abstract-expansion table that expansion-depthing metadata adds holds the length of the shortest chain of"
+    " abstract expansions (grammar analysis interpreted end to end on the model grammars, sa/rules/grammodel.py);"
+    " (R7) whole programs: relabel_nodes_of_trees is interpreted recursively on every program depth-limited "
+    "creation can produce on the four creation model grammars (depth <= 3), in both depth modes, and every node's"
+    " count, distance, weighted size and type index equal an independent traversal under the repository's own "
+    "leaf convention (default mode: base values and productions without fields are leaves of height 0 that are "
+    "not counted, pinned by tests/representations/tree_based/relabel_test.py; expansion-depthing mode: leaves "
+    "count 1 and every abstract expansion on the way to a child - the shortest chain, R6 - adds one node and one "
+    "level). Decided for non-list children; list nodes are a known finding."
 )
 
 RELABEL = "geneticengine.representations.tree.utils:relabel_nodes"
